@@ -72,7 +72,11 @@ def guided_from_tlc(num, depth, consts):
     res = []
     for line in out.split("\n"):
         if line.startswith('"CSCHED@'):
-            res.append(json.loads(json.loads(line)[len("CSCHED@"):]))
+            b = json.loads(json.loads(line)[len("CSCHED@"):])
+            # negative entries are "thread t queues for the write lock" steps of the model: a queued thread is blocked, the
+            # controller never schedules it, so they are no choices of a replayed schedule
+            b["sched"] = [x for x in b["sched"] if x > 0]
+            res.append(b)
     if not res:
         raise ToolError("no schedules generated:\n" + out[-2000:])
     return res
